@@ -32,6 +32,9 @@ type cliCase struct {
 	F      *formula  `json:"formula,omitempty"` // a tall or long first alignment, by formula
 	// optional inputs, drawn independently so that every combination occurs
 	HasRef  bool       `json:"ref_sequence"`            // stats --per-sequences: --ref-sequence given
+	RefFile []string   `json:"ref_file,omitempty"`      // --ref-sequence names a FASTA file with these sequences: the first one is the reference
+	GapMode string     `json:"gap_mode,omitempty"`      // stats gaps: "" (all gaps), from-start, from-end, openning
+	OldFlag bool       `json:"exclude_gaps_flag"`       // consensus / maxchar: the older spelling --exclude-gaps instead of --ignore-gaps
 	Profile []string   `json:"count_profile,omitempty"` // --count-profile: rows the profile file is counted from (per-sequences, gaps --unique, mutations --unique)
 	Only    string     `json:"only,omitempty"`          // stats char --only
 	Layout  cli.Layout `json:"layout"`                  // presentation of a FASTA input
@@ -48,7 +51,7 @@ type cliCase struct {
 	NoGaps  bool       `json:"no_gaps"`
 }
 
-var cliCmds = []string{"mutations-list", "entropy", "pssm", "diff-counts", "per-sequences", "mutations-ref", "consensus", "maxchar", "stats",
+var cliCmds = []string{"mutations-list", "entropy", "pssm", "diff-counts", "per-sequences", "mutations-ref", "consensus", "maxchar", "gaps-count", "stats",
 	"char-per-sites", "gaps-unique", "mutations-unique", "char", "char-per-sequences", "alleles"}
 
 // loops: the commands that process every alignment of their input
@@ -91,7 +94,7 @@ func genCLI(t *rapid.T) cliCase {
 	mixedOK := c.Cmd == "consensus" || c.Cmd == "maxchar" || c.Cmd == "stats" || c.Cmd == "char" || c.Cmd == "char-per-sequences"
 	special := false
 	switch c.Cmd {
-	case "mutations-list", "mutations-ref", "per-sequences", "mutations-unique", "gaps-unique", "diff-counts":
+	case "mutations-list", "mutations-ref", "per-sequences", "mutations-unique", "gaps-unique", "diff-counts", "gaps-count":
 		special = true
 	}
 	one := func(alpha string) gen.Ali {
@@ -142,6 +145,8 @@ func genCLI(t *rapid.T) cliCase {
 		c.Stale = c.OutFile && rapid.Bool().Draw(t, "stale")
 	}
 	c.HasRef = rapid.Bool().Draw(t, "hasref")
+	c.GapMode = rapid.SampledFrom([]string{"", "from-start", "from-end", "openning"}).Draw(t, "gapmode")
+	c.OldFlag = rapid.Bool().Draw(t, "oldflag")
 	switch c.Cmd {
 	case "per-sequences", "gaps-unique", "mutations-unique":
 		if c.F == nil && rapid.Bool().Draw(t, "withprofile") {
@@ -189,6 +194,31 @@ func genCLI(t *rapid.T) cliCase {
 	}
 	// the reference name exists in every alignment of the file; its residues differ between them
 	c.Ref = rapid.IntRange(0, minRows-1).Draw(t, "ref")
+	switch c.Cmd {
+	case "mutations-ref", "mutations-list", "per-sequences":
+		// the reference may also be given as a FASTA file whose first sequence is taken (stats.md)
+		if c.F == nil && rapid.IntRange(0, 2).Draw(t, "reffile") == 1 {
+			c.More = nil // one reference length
+			chars := ntIUPAC
+			if c.Ali.Alphabet == "aa" {
+				chars = aaUpper
+			}
+			first := c.Ali.Rows[c.Ref].Seq
+			if rapid.Bool().Draw(t, "extref") {
+				b := []byte(first)
+				for k := range b {
+					if rapid.IntRange(0, 3).Draw(t, "refedit") == 0 {
+						b[k] = chars[rapid.IntRange(0, len(chars)-1).Draw(t, "refchar")]
+					}
+				}
+				first = string(b)
+			}
+			c.RefFile = []string{first}
+			for k := rapid.IntRange(0, 2).Draw(t, "refmore"); k > 0; k-- {
+				c.RefFile = append(c.RefFile, gen.SeqN(t, chars, rapid.IntRange(1, 12).Draw(t, "reflen")))
+			}
+		}
+	}
 	c.Pseudo = rapid.SampledFrom([]float64{0, 0.5, 1}).Draw(t, "pseudo")
 	c.Log = rapid.Bool().Draw(t, "log")
 	c.Norm = rapid.SampledFrom([]int{1, 3, 0, 2, 9}).Draw(t, "norm")
@@ -229,9 +259,12 @@ func blockLines(c cliCase, a gen.Ali) int {
 			return 1
 		}
 		return l
-	case "diff-counts", "gaps-unique", "mutations-unique", "mutations-ref":
+	case "diff-counts", "gaps-unique", "mutations-unique", "mutations-ref", "gaps-count":
 		return n
 	case "mutations-list":
+		if c.RefFile != nil {
+			return n
+		}
 		return n - 1
 	case "alleles":
 		return 1
@@ -312,7 +345,10 @@ func TestCLI(t *testing.T) {
 		defer os.Remove(in)
 		var args []string
 		flags := func() {
-			if c.IG {
+			if c.IG && c.OldFlag {
+				args = append(args, "--exclude-gaps") // kept "for backward compatibility" (flag help)
+				o.Class("--exclude-gaps")
+			} else if c.IG {
 				args = append(args, "--ignore-gaps")
 			}
 			if c.IN {
@@ -320,6 +356,15 @@ func TestCLI(t *testing.T) {
 			}
 		}
 		refName := a.Rows[c.Ref].Name
+		if c.RefFile != nil {
+			var rr []gen.Row
+			for i, r := range c.RefFile {
+				rr = append(rr, gen.Row{Name: fmt.Sprintf("ref%d", i), Seq: r})
+			}
+			refName = cli.TempFile(dir, ".ref.fa", cli.Fasta(rr))
+			defer os.Remove(refName)
+			o.Class("reference-given-as-file(%d sequences)", len(c.RefFile))
+		}
 		wantErr := false
 		switch c.Cmd {
 		case "consensus":
@@ -336,6 +381,11 @@ func TestCLI(t *testing.T) {
 			args = []string{"stats", "char", "--per-sequences", "-i", in}
 		case "char-per-sites":
 			args = []string{"stats", "char", "--per-sites", "-i", in}
+		case "gaps-count":
+			args = []string{"stats", "gaps", "-i", in}
+			if c.GapMode != "" {
+				args = append(args, "--"+c.GapMode)
+			}
 		case "gaps-unique":
 			args = []string{"stats", "gaps", "--unique", "-i", in}
 		case "mutations-unique":
@@ -497,6 +547,10 @@ func TestCLI(t *testing.T) {
 		for ai, a := range alis {
 			n, l := len(a.Rows), a.Length()
 			ref := a.Rows[c.Ref].Seq
+			skipRef := c.Ref // `mutations list` does not list the row that is the reference
+			if c.RefFile != nil {
+				ref, skipRef = c.RefFile[0], -1
+			}
 			size := blockLines(c, a)
 			if pos+size > len(all) {
 				return fail("alignment %d of the file: %d lines expected from line %d on, the output has %d", ai, size, pos, len(all))
@@ -634,6 +688,35 @@ func TestCLI(t *testing.T) {
 					}
 				}
 				o.NonTrivial = o.NonTrivial || len(hdr) > 1
+			case "gaps-count":
+				// the number of '-' of each sequence (a character count), or its leading / trailing run, or
+				// the number of runs
+				if len(tb) != n {
+					return fail("%d lines expected", n)
+				}
+				o.Class("stats gaps --%s", c.GapMode)
+				for i2, row := range a.Rows {
+					want := strings.Count(row.Seq, "-")
+					switch c.GapMode {
+					case "from-start":
+						want = len(row.Seq) - len(strings.TrimLeft(row.Seq, "-"))
+					case "from-end":
+						want = len(row.Seq) - len(strings.TrimRight(row.Seq, "-"))
+					case "openning":
+						want = 0
+						for k := 0; k < l; k++ {
+							if row.Seq[k] == '-' && (k == 0 || row.Seq[k-1] != '-') {
+								want++
+							}
+						}
+					}
+					if nb, e := strconv.Atoi(tb[i2][len(tb[i2])-1]); len(tb[i2]) != 2 || tb[i2][0] != row.Name || e != nil || nb != want {
+						return fail("line %v: %d expected for %q", tb[i2], want, row.Seq)
+					}
+					if want > 0 {
+						o.NonTrivial = true
+					}
+				}
 			case "gaps-unique", "mutations-unique":
 				u := uniqueCounts(a, c.Profile)
 				want, opt := [3][]int{u.gu, u.gn, u.gb}, [3][]int{make([]int, n), make([]int, n), make([]int, n)}
@@ -677,15 +760,12 @@ func TestCLI(t *testing.T) {
 					}
 				}
 			case "mutations-list":
-				if n == 1 {
-					break // no line: the only sequence is the reference (the total is checked below)
-				}
-				if len(tb) != n-1 {
-					return fail("%d lines expected", n-1)
+				if len(tb) != blockLines(c, a) {
+					return fail("%d lines expected", blockLines(c, a))
 				}
 				k := 0
 				for i2, row := range a.Rows {
-					if i2 == c.Ref {
+					if i2 == skipRef {
 						continue
 					}
 					_, _, l1 := naiveMutations(a.Alphabet, row.Seq, ref, false, nil)
